@@ -5,7 +5,7 @@
 //! One case = (header byte, (bias, max_value) pair); the driver enumerates, for that header,
 //!   the 1-byte string [h], all 256 strings [h, b], all 256 x 64 strings [h, b, c] (c from `THIRD`), and for
 //!   branch factor 32 (4-byte nodes) [h, b, 0, 0, 0] for every b plus two more.
-//! Strings whose filled nodes would materialise >= 2^27 members (up to 2^32: 1.3 s CPU and 0.66 GB each) are
+//! Strings whose filled nodes would materialise >= 2^18 members (up to 2^32: 1.3 s CPU and 0.66 GB each) are
 //! predicted by `predict` (a set-free transcription of the decoding loop) and skipped; three such giants run
 //! as separate single-string cases. Each decode runs under its own `guard`, so one panic does not hide the rest.
 
@@ -34,7 +34,7 @@ pub const THIRD: [u8; 64] = [
     0xE0, 0xEE, 0xF0, 0xF7, 0xF8, 0xFC, 0xFE, 0xFF, 0x3F, 0x3C, 0x66, 0x99, 0x2A,
 ];
 
-pub const GIANT_LIMIT: u64 = 1 << 27;
+pub const GIANT_LIMIT: u64 = 1 << 18;
 
 fn header(h: u8) -> (u64, u32, u32) {
     // (branch factor, height, max height)
